@@ -106,10 +106,16 @@ class Log:
                 c.out_by_step[step] = c.out_by_step.get(step, b"") + data
                 self.events.append((step, "W", c.n, int(m.group(2)), ret, data))
             elif k == "SEND":
-                c = self.conn(w[1])
+                c = self.conn(w[1]) if w[1].startswith("c") else None
                 ret = int(w[2].split("=")[1])
-                c.sends.append((step, ret))
-                self.events.append((step, "SEND", c.n, ret))
+                data = unhex(w[4]) if len(w) > 4 else b""
+                if c is None:
+                    self.faults.append("send on a descriptor that is not a connection: " + ln)
+                else:
+                    c.sends.append((step, ret, data))
+                    if w[3] != "open=1":
+                        self.faults.append("send on released connection: " + ln[:80])
+                    self.events.append((step, "SEND", c.n, ret, data))
             elif k == "CLOSE":
                 if w[1].startswith("c"):
                     c = self.conn(w[1])
